@@ -108,10 +108,15 @@ class Exec:
 
     def ev_Tuple(self, e, st, k):
         def done(vals, st2):
+            tys = {str(getattr(v, "ty", None)) for v in vals}
+            if vals and (len(tys) > 1 or any(isinstance(v, (SRef, SOpaqueObj, STuple, SClosure)) for v in vals)):
+                return k(STuple(list(vals)), st2)
             return k(self.mk_seq(vals, st2), st2)
         return self.evs(e.elts, st, done)
 
     def ev_List(self, e, st, k):
+        if not e.elts:
+            return k(SClosure("emptylist", "[]"), st)
         def done(vals, st2):
             sq = self.mk_seq(vals, st2)
             r = new_ref()
@@ -201,6 +206,10 @@ class Exec:
         return self.ev(e.value, st, got)
 
     def index(self, o, i, st, k):
+        if isinstance(o, STuple):
+            ii = z3.simplify(i.t)
+            if not z3.is_int_value(ii): raise Unsupported("symbolic index into a heterogeneous tuple")
+            return k(o.items[ii.as_long()], st)
         if isinstance(o, SClosure) and o.kind == "name":      # typing generics: Sequence[Node]
             return k(o, st)
         if isinstance(o, SRef):
@@ -426,7 +435,9 @@ class Exec:
             from vf.pyvc.spec import PureEval
             pe = PureEval(self, st3, env)
             kv, vv = pe.ev(e.key), pe.ev(e.value)
-            if pe.defs: raise Unsupported("partial expression in dict comprehension")
+            for exc, c in pe.defs:
+                self.vc(f"{self.top_name}.dict_comprehension_defined", st3,
+                        z3.ForAll([i], z3.Implies(z3.And(i >= 0, i < n), c)), f"{exc} inside a dict comprehension")
             kt, vt = term_of(kv), term_of(vv)
             ks, vs = kt.sort(), vt.sort()
             dom = S.fresh("dc.dom", z3.ArraySort(ks, z3.BoolSort()))
@@ -446,6 +457,7 @@ class Exec:
     def iter_seq(self, it, st):
         """The sequence a `for` would traverse: (St', SSeq)."""
         if isinstance(it, SSeq): return st, it
+        if isinstance(it, SClosure) and it.kind == "emptylist": return st, EmptySeq()
         if isinstance(it, SRef):
             c = st.cell(it.ref)
             if isinstance(c, ListCell): return st, SSeq(c.elem, c.n, c.arr)
